@@ -296,11 +296,11 @@ def run(ctx):
                 jobs.append({"kind": "exh", "cls": cname, "n": n, "set": setname, "lo": bounds[j], "hi": bounds[j + 1]})
             expected += (k ** n) * len(DTS[setname])
     jobs.append({"kind": "values"})
-    nrand = ctx.pick(20000, 400000)
+    nrand = ctx.pick(20000, 1600000)
     per = ctx.pick(5000, 25000)
     jobs += [{"kind": "random", "count": per} for _ in range(nrand // per)]
     jobs.sort(key=lambda j: -(j.get("n", 0)))
-    ctx.shard(jobs, timeout=ctx.pick(90, 340))
+    ctx.shard(jobs, timeout=ctx.pick(90, 1500))
     ctx.exhaustive = True
     ctx.extra["exhaustive_scope"] = "the per-input option sets named in the rule for 1..%d inputs" % (3 if ctx.quick else 4)
     ctx.floor("exhaustive_cases", expected)
